@@ -45,8 +45,9 @@ type bodyM struct {
 	Blocks []blockM `json:"blocks,omitempty"`
 }
 type fileM struct {
-	Syntax string `json:"syntax"`
-	Body   bodyM  `json:"body"`
+	Syntax    string `json:"syntax"`
+	Body      bodyM  `json:"body"`
+	JSONArray int    `json:"json_array,omitempty"`
 }
 type opM struct {
 	Kind   string `json:"kind"`
